@@ -53,9 +53,19 @@ Fixpoint group_loop (digits : str) (index trunc_size dot : nat) (tsep : str) : s
       ++ group_loop r (S index) trunc_size dot' tsep
   end.
 
+(* 10_f64.powi(n) as compiler-rt's __powidf2 computes it (square and multiply, n >= 0) *)
+Fixpoint powi_loop (fuel : nat) (a r : F) (b : N) : F :=
+  match fuel with
+  | O => r
+  | S f =>
+    let r' := if N.odd b then fmul r a else r in
+    let b' := N.div2 b in
+    if N.eqb b' 0 then r' else powi_loop f (fmul a a) r' b'
+  end.
+Definition powi10 (n : N) : F := powi_loop 10 (fofZ 10) f1 n.
+
 Definition format_number (number : F) (tsep dsep : str) (digits : N) (rm_zero use_round : bool) : res str :=
-  if N.leb 10 digits then Panic SITE_POW_OVERFLOW else
-  let divider := fofZ (10 ^ Z.of_N digits) in
+  let divider := powi10 digits in
   let fract_number := do_division (fround (fmul number divider)) divider in
   let trunc_part := fdisplay (fabs (ftrunc fract_number)) in
   let formated := if use_round then ffixed (fabs number) digits else fdisplay (fabs number) in
@@ -83,10 +93,10 @@ Fixpoint radix_digits (fuel : nat) (upper : bool) (base n : Z) (acc : str) : str
            if n <? base then acc' else radix_digits f upper base (n / base) acc'
   end.
 
-(* {:#b} {:#o} {:#X} of an i32: negative values print their 32-bit two's complement *)
-Definition fmt_radix_i32 (prefix : str) (upper : bool) (base : Z) (v : Z) : str :=
-  let u := if v <? 0 then v + 2^32 else v in
-  prefix ++ radix_digits 40 upper base u [].
+(* {:#b} {:#o} {:#X} of an i64: negative values print their 64-bit two's complement *)
+Definition fmt_radix_i64 (prefix : str) (upper : bool) (base : Z) (v : Z) : str :=
+  let u := if v <? 0 then v + 2^64 else v in
+  prefix ++ radix_digits 70 upper base u [].
 
 Definition pad2 (z : Z) : str := (if z <? 10 then [48%N] else []) ++ Z_to_str z.
 
@@ -226,10 +236,10 @@ Definition item_print (cfg : config F) (lang : str) (now_year : Z) (i : item F) 
     match nt with
     | Decimal => format_number x (cf_tsep cfg) (cf_dsep cfg) (nc_digits (cf_number cfg))
                                (nc_rm (cf_number cfg)) (nc_round (cf_number cfg))
-    | Binary => Ok (fmt_radix_i32 (s "0b") false 2 (as_i32 x))
-    | Octal => Ok (fmt_radix_i32 (s "0o") false 8 (as_i32 x))
-    | Hexadecimal => Ok (fmt_radix_i32 (s "0x") true 16 (as_i32 x))
-    | Raw => Ok (Z_to_str (as_i32 x))
+    | Binary => Ok (fmt_radix_i64 (s "0b") false 2 (as_i64 x))
+    | Octal => Ok (fmt_radix_i64 (s "0o") false 8 (as_i64 x))
+    | Hexadecimal => Ok (fmt_radix_i64 (s "0x") true 16 (as_i64 x))
+    | Raw => Ok (Z_to_str (as_i64 x))
     end
   | IPercent x =>
     do r <- format_number x (cf_tsep cfg) (cf_dsep cfg) (nc_digits (cf_percent cfg))
